@@ -211,7 +211,13 @@ func (fc *FnCtx) assumeWF(v Val, cond string) {
 	}
 	w := fc.wf(v.Typ, v.T, 0)
 	if w != "true" {
-		fc.B.Assert(w)
+		// well-formedness of a value computed on a conditional path holds where that path is taken (an
+		// unguarded assertion would silently exclude inputs for which the untaken path computes junk)
+		if cond == "" || cond == "true" {
+			fc.B.Assert(w)
+		} else {
+			fc.B.Assert(implies(cond, w))
+		}
 	}
 	if _, ok := v.Typ.Underlying().(*types.Pointer); ok {
 		_ = cond
@@ -248,7 +254,16 @@ func (fc *FnCtx) zero(t types.Type) string {
 	switch u := t.Underlying().(type) {
 	case *types.Slice:
 		es := fc.B.SortOf(u.Elem())
-		return fmt.Sprintf("(mkS true 0 ((as const (Array Int %s)) %s))", es, fc.zero(u.Elem()))
+		// the nil slice: its backing array is irrelevant, so it is one declared constant per element sort rather
+		// than a constant-array literal. (cvc5 1.0.3 answers "unsat" on satisfiable scripts in which constant
+		// arrays are nested inside datatype values of other constant arrays - see wip/cvc5_wrong_unsat_min.smt2.txt -
+		// and zero values of structs with slice fields were the only source of such nesting.)
+		arr := "nilarr_" + sanitize(es)
+		if !fc.B.declared["const:"+arr] {
+			fc.B.declared["const:"+arr] = true
+			fc.B.Raw(fmt.Sprintf("(declare-const %s (Array Int %s))", arr, es))
+		}
+		return fmt.Sprintf("(mkS true 0 %s)", arr)
 	case *types.Array:
 		es := fc.B.SortOf(u.Elem())
 		return fmt.Sprintf("(mkS false %d ((as const (Array Int %s)) %s))", u.Len(), es, fc.zero(u.Elem()))
@@ -879,6 +894,9 @@ func (fr *Frame) execInstr(b *ssa.BasicBlock, in ssa.Instruction, st *State, rea
 		}
 		np := Val{S: "Int", T: p.T, Typ: x.Type(), PBase: p.PBase}
 		np.PPath = append(append([]pathElem(nil), p.PPath...), pathElem{field: info.byName[stt.Field(x.Field).Name()], info: info})
+		if p.Fn != nil && p.Fn.Special == "elemptr" {
+			np.Fn = p.Fn // a field of a slice element: a store through it is written back to the slice
+		}
 		fr.vals[x] = np
 		// nil dereference: a safety site; afterwards the path continues only if non-nil (a panic aborts)
 		fc.safety(reach, eq(p.T, "0"), "nil-deref", in)
@@ -973,7 +991,7 @@ func (fr *Frame) execInstr(b *ssa.BasicBlock, in ssa.Instruction, st *State, rea
 		}
 		fc.store(st, p, v)
 		if p.Fn != nil && p.Fn.Special == "elemptr" {
-			fr.sliceElemWrite(x, p, v)
+			fr.sliceElemWrite(x, p, v, st)
 		}
 	case *ssa.Range:
 		fr.rangeInit(x, st)
